@@ -50,6 +50,34 @@ type (
 	NFloat64 float64
 )
 
+// Named element types that carry methods, with names a library might look for.
+// A method set does not change what the type is: its samples are as wide as
+// its underlying type and are stored as such.
+type (
+	MInt32   int32
+	MUint16  uint16
+	MFloat32 float32
+)
+
+func (MInt32) BitDepth() signal.BitDepth   { return 24 }
+func (MInt32) String() string              { return "MInt32" }
+func (MUint16) BitDepth() signal.BitDepth  { return 8 }
+func (MUint16) Len() int                   { return 1 }
+func (MUint16) Channels() int              { return 7 }
+func (MFloat32) BitDepth() signal.BitDepth { return 16 }
+func (MFloat32) Float64() float64          { return 0 }
+func (MFloat32) Sample(int) float64        { return 0 }
+
+// NaNs: quiet and signalling NaN bit patterns of float64, payload in the high bits, in the low
+// bits only (what a narrowing to float32 shifts out), of both signs.
+var NaNs = []float64{
+	math.NaN(),
+	math.Float64frombits(0x7FF8000000000000), math.Float64frombits(0xFFF8000000000000),
+	math.Float64frombits(0x7FF0000000000001), math.Float64frombits(0xFFF0000000000001),
+	math.Float64frombits(0x7FF000001FFFFFFF), math.Float64frombits(0x7FF4000000000000),
+	math.Float64frombits(0x7FF0000020000000), math.Float64frombits(0xFFFFFFFFFFFFFFFF),
+}
+
 // Builtins lists the 13 built-in instantiations of signal.SignalTypes.
 var Builtins = []TypeInfo{
 	{"int", Signed, strconv.IntSize, false},
@@ -86,6 +114,10 @@ var NamedTypes = []TypeInfo{
 	{"LSample16", Signed, 16, true},
 	{"LSample64", Signed, 64, true},
 	{"LSampleF32", Float, 32, true},
+	// named types that carry methods
+	{"MInt32", Signed, 32, true},
+	{"MUint16", Unsigned, 16, true},
+	{"MFloat32", Float, 32, true},
 }
 
 // Info returns the TypeInfo for a type name (built-in or named).
